@@ -26,6 +26,13 @@ func (ld CheckLockedUndDecorator) AnteHandle(ctx sdk.Context, tx sdk.Tx, simulat
 
 	feePayer := feeTx.FeePayer()
 
+	// When a fee granter is named, the fee is deducted from the granter's account (feegrant), not
+	// from the fee payer's: nothing of the payer's locked Enterprise FUND is spent on this Tx, so
+	// nothing must be unlocked - unlocked FUND would simply turn into spendable balance.
+	if granter := feeTx.FeeGranter(); granter != nil && !granter.Equals(feePayer) {
+		return next(ctx, tx, simulate)
+	}
+
 	if (wrkchain.CheckIsWrkChainTx(feeTx) || beacon.CheckIsBeaconTx(feeTx)) && ld.entk.IsLocked(ctx, feePayer) {
 		// WRKChain/BEACON Tx and has locked Enterprise FUND.
 		// check for and Undelegate any Locked FUND to pay for fees
